@@ -43,7 +43,7 @@ func getSwapOutSenderStates() States {
 		State_SwapOutSender_SendRequest: {
 			Action: &SendMessageAction{},
 			Events: Events{
-				Event_ActionFailed:    State_SwapCanceled,
+				Event_ActionFailed:    State_SendCancel,
 				Event_ActionSucceeded: State_SwapOutSender_AwaitAgreement,
 			},
 			FailOnrecover: true,
@@ -55,7 +55,7 @@ func getSwapOutSenderStates() States {
 				Event_OnTimeout:            State_SendCancel,
 				Event_OnFeeInvoiceReceived: State_SwapOutSender_PayFeeInvoice,
 				Event_OnInvalid_Message:    State_SendCancel,
-				Event_ActionFailed:         State_SwapCanceled,
+				Event_ActionFailed:         State_SendCancel,
 			},
 			FailOnrecover: true,
 		},
